@@ -1,4 +1,4 @@
 From Coq Require Import ZArith Extraction ExtrOcamlBasic.
 From CyVerif Require Import Lib.CInt Model.M_Pickle.
-Extraction "../ocaml/gen/m_pickle.ml" ex_keep all_members all_names decide compile_error
+Extraction "../ocaml/gen/m_pickle.ml" ex_keep all_members all_names decide decide_walk_n compile_error
   effective_reduce effective_setstate accepted new_obj reduce unpickle set_state load load_into get.
